@@ -3,6 +3,7 @@
 //! forwarded to the TLC judges.
 mod calc;
 mod counted;
+mod dump;
 mod dynops;
 mod expr;
 mod floatgrid;
@@ -35,6 +36,7 @@ fn main() {
         "vars" => vars::main(rest),
         "valgrid" => valgrid::main(rest),
         "calc" => calc::main(rest),
+        "dump" => dump::main(rest),
         "threads" => threads::main(rest),
         "floatgrid" => floatgrid::main(rest),
         "valdiff" => valdiff::main(rest),
